@@ -575,7 +575,13 @@ def gen_nearest(rng, tier):
         if rng.random() < 0.3:
             x = [rng.uniform(-1, 1) for _ in range(3)]
             ops.append('touching %s %s' % (fhs(x), fh(rng.choice([0.0, 0.1, 1.0]))))
-    ops += ['reset', 'nearest2 %s' % fhs([0, 0, 0, 1]), 'wallbuild 2', 'nearest2 %s' % fhs([0, 0, 0, 1]), 'dump',
+        # the real ref_phys_wall_distance (serial, its own rand() permutation) on a grid made of these elements;
+        # face id of element i is 1+i%3, `mask` picks the non-empty or empty subset of ids that are walls
+        mask = 7 if rng.random() < 0.5 else rng.randint(1, 7)
+        qs = element_queries(rng, els, per, 8)
+        ops.append('walldist %d %d %s' % (per, mask, fhs([c for q in qs for c in q])))
+    ops += ['reset', 'nearest2 %s' % fhs([0, 0, 0, 1]), 'wallbuild 2', 'walldist 2 7 %s' % fhs([1, 2, 3]),
+            'walldist 3 0', 'walldist 3 9 %s' % fhs([1, 2, 3]), 'walldist 3 1 %s' % fhs([1, 2]), 'nearest2 %s' % fhs([0, 0, 0, 1]), 'dump',
             'wallbuild 3 0', 'wallbuild 4', 'seg %s' % fhs([0] * 5), 'tri %s' % fhs([0] * 9), 'wallbuild 3 0 0',
             'nearest3 %s' % fhs([1, 2, 2, REF_DBL_MAX]), 'nearest2 %s' % fhs([1, 2, 2, REF_DBL_MAX]),
             'create 2', 'insert 5 %s' % fhs([0, 0, 0, 1]), 'nearest3 %s' % fhs([1, 2, 2, REF_DBL_MAX])]
@@ -608,6 +614,40 @@ def oracle_nearest(ops, impl):
             else:
                 ncell = len(segs) if w[1] == '2' else len(tris)
                 inserted = [int(v) for v in w[2:]][:ncell]
+        elif op == 'walldist' and r.startswith('ok'):
+            f = _floats(w[3:])
+            els = segs if w[1] == '2' else tris
+            mask = int(w[2])
+            walls = [e for k, e in enumerate(els) if (mask >> (k % 3)) & 1]
+            out = r.split()[1:]
+            if len(out) != len(f) // 3:
+                bad.append((i, 'walldist printed %d distances for %d query nodes' % (len(out), len(f) // 3)))
+                continue
+            for q in range(len(out)):
+                x = f[3 * q:3 * q + 3]
+                if out[q] == 'nan':
+                    bad.append((i, 'wall distance NaN'))
+                    break
+                d = hf(out[q])
+                if not walls:
+                    if d != REF_DBL_MAX:
+                        bad.append((i, 'no wall element but distance %r' % d))
+                        break
+                    continue
+                sc = Scaler([c for e in walls for v in e for c in v] + list(x))
+                if not sc.ok:
+                    continue
+                X = sc.p(x)
+                best = None
+                for e in walls:
+                    vs = [sc.p(v) for v in e]
+                    t2 = seg_d2(vs[0], vs[1], X) if len(vs) == 2 else tri_d2(vs[0], vs[1], vs[2], X)
+                    if best is None or t2 < best:
+                        best = t2
+                if not within(d, best, sc, tol_of(sc.L)):
+                    bad.append((i, 'ref_phys_wall_distance gives %r for query %d, brute-force minimum over the wall '
+                                'elements is %r' % (d, q, math.sqrt(float(best)) / (1 << sc.k))))
+                    break
         elif op in ('nearest2', 'nearest3') and r.startswith('ok') and inserted is not None:
             f = _floats(w[1:])
             els = segs if op == 'nearest2' else tris
